@@ -162,7 +162,9 @@ impl Bundle<(&ImageHeader, &FrameHeader)> for Patches {
                 let blending = std::iter::repeat_with(|| -> Result<_> {
                     let raw_mode = decoder.read_varint(bitstream, 5)?;
                     let mode = PatchBlendMode::try_from(raw_mode)?;
-                    let alpha_channel = if raw_mode >= 4 && alpha_channel_indices.len() >= 2 {
+                    // The alpha channel index is signalled whenever there are multiple extra
+                    // channels (not only when several of them are alpha channels).
+                    let alpha_channel = if raw_mode >= 4 && num_extra >= 2 {
                         decoder.read_varint(bitstream, 8)?
                     } else {
                         alpha_channel_indices.first().copied().unwrap_or_default()
